@@ -998,6 +998,130 @@ theorem c07_resync (d : Dec) (e : Enc) (f g : List Bytes) (hc : ValidCfg e.cfg e
     (by rw [hc1, hc2]; exact hc) (by rw [hc2]; exact hg) hcl (by rw [hp, hc2]; exact hpar)
   exact ⟨d', outs, h1, h2, h3, h5⟩
 
+/-! ### decoders whose sniffing is NOT over
+
+What remains true without `Synced`: if the group starts with a whole packet (its first batch is not
+a fragmented AU) and the first packet does not happen to carry the sequence number a stale fragment
+run is waiting for, a decoder holding stale fragments answers that first packet with an error,
+drops the stale fragments, and decodes the rest of the group exactly — damage stays local, the
+sniffing then sees only raw AUs.  Not covered (and false on the real code, see the known finding):
+a stale or new decoder that has returned nothing yet and meets the TAIL of a fragmented AU first. -/
+
+/-- `Decode` of a complete packet for `units` while stale fragments are held: refused, fragments dropped -/
+theorem decode_agg_dirty (d : Dec) (q : Pkt) (units : List Bytes) (hsl : 1 ≤ d.par.sl) (hne : units ≠ [])
+    (hv : ∀ u ∈ units, SizeOk d.par u.length) (h16 : hdrLen d.par true units.length < 65536)
+    (hq : q.payload = be16 (auHeaders d.par true units).length ++ pack (auHeaders d.par true units) ++ units.flatten)
+    (hz : d.size ≠ 0) (hna : units.length ≠ 1 ∨ q.seq ≠ d.nextSeq) : decode d q = (d.reset, .err) := by
+  obtain ⟨f1, f2, f3, f4, f5⟩ := front d.par hsl units hne hv h16 q.payload hq
+  unfold decode
+  simp only [f1, ↓reduceIte, f2, f3, f4, f5, hz]
+  match units, hna with
+  | [], _ => rfl
+  | [u], hna =>
+    have hs : q.seq ≠ d.nextSeq := by rcases hna with h | h; exact absurd rfl h; exact h
+    simp only [List.map_cons, List.map_nil, List.flatten_cons, List.flatten_nil, List.append_nil,
+      Nat.lt_irrefl, ↓reduceIte, hs, ne_eq, not_false_eq_true]
+  | _ :: _ :: _, _ => rfl
+
+/-- **C07, sniffing not over**: a decoder holding stale fragments (any, with any expected sequence
+number, whether or not it has ever returned an AU) that is not in ADTS mode, fed the packets of a
+valid group whose first batch goes into one whole packet, refuses that packet, and then returns
+exactly the remaining batches; it is clean afterwards.  `hna` excludes the 1-in-65536 coincidence
+that a single-AU first packet carries exactly the sequence number the stale run expects. -/
+theorem c07_flush_unsniffed (e : Enc) (aus : List Bytes) (d : Dec) (hc : ValidCfg e.cfg e.par)
+    (hf : ValidFrame e.par aus) (hpar : d.par = e.par) (hm : d.adtsMode = false) (hz : d.size ≠ 0)
+    (b1 : List Bytes) (rest : List (List Bytes)) (hparts : parts e.cfg e.par aus = b1 :: rest)
+    (hwhole : b1.length ≠ 1 ∨ lenAggregated e.par b1 none < e.cfg.max)
+    (hna : b1.length ≠ 1 ∨ e.seq ≠ d.nextSeq) :
+    ∃ d' outs, runDec d (pkts e aus) = (d', .err :: outs) ∧ Clean d' ∧ OnlyOkMore outs ∧ okFrames outs = rest := by
+  have hbv := parts_valid e.cfg e.par aus hf
+  have hb1 := hbv b1 (by rw [hparts]; simp)
+  have hagg : writeBatch e.cfg e.par b1 0 e.seq = writeAggregated e.cfg e.par b1 0 e.seq := by
+    unfold writeBatch
+    split
+    · rcases hwhole with h | h
+      · simp at h
+      · simp [h]
+    · rfl
+  have hsl : 1 ≤ d.par.sl := by rw [hpar]; exact hc.sl_pos
+  have hd := decode_agg_dirty d { pt := e.cfg.pt, seq := e.seq, ts := 0, ssrc := e.cfg.ssrc, marker := true,
+                                  payload := be16 (auHeaders e.par true b1).length ++ pack (auHeaders e.par true b1) ++ b1.flatten }
+    b1 hsl hb1.ne (fun u hu => by rw [hpar]; exact (hb1.units u hu).1) (by rw [hpar]; exact hb1.h16)
+    (by rw [hpar]) hz hna
+  obtain ⟨d', outs, h1, ⟨hcl, _⟩, h3, h4⟩ := run_writeAllOk decode (fun d0 => Clean d0 ∧ d0.par = e.par)
+    (writeBatch e.cfg e.par) inc rest (0 + inc b1) (e.seq + UInt16.ofNat (writeBatch e.cfg e.par b1 0 e.seq).length)
+    d.reset ⟨⟨rfl, rfl, hm⟩, hpar⟩ (fun b hb ts sq d0 hd0 => by
+      obtain ⟨d1, n, hr, hc1, hp1, _⟩ := run_batch e.cfg e.par hc b (hbv b (by rw [hparts]; simp [hb])) ts sq d0 hd0.1 hd0.2
+      exact ⟨d1, n, hr, hc1, hp1⟩)
+  refine ⟨d', outs, ?_, hcl, h4, h3⟩
+  unfold pkts
+  rw [hparts, writeAllOk, runDec, runDecGen_append, hagg]
+  simp only [writeAggregated, runDecGen, hd]
+  rw [hagg] at h1
+  simp only [writeAggregated] at h1
+  rw [h1]
+  rfl
+
+/-- the bit lengths never change -/
+theorem decode_par (d : Dec) (q : Pkt) : (decode d q).1.par = d.par := by
+  have hrm : ∀ (d' : Dec) (aus : List Bytes), (removeADTS d' aus).1.par = d'.par :=
+    fun d' aus => (removeADTS_state d' aus).2.2
+  unfold decode
+  split
+  · rfl
+  simp only []
+  split
+  · rfl
+  split
+  · rfl
+  · split
+    · split
+      · split
+        · rfl
+        · rw [hrm]; rfl
+      · split
+        · split <;> rfl
+        · rfl
+    · split
+      · split
+        · rfl
+        split
+        · rfl
+        split
+        · rfl
+        split
+        · rfl
+        · rw [hrm]; rfl
+      · rfl
+
+theorem runDec_par (d : Dec) (ps : List Pkt) : (runDec d ps).1.par = d.par := by
+  induction ps generalizing d with
+  | nil => rfl
+  | cons q ps ih =>
+    simp only [runDec, runDecGen]
+    have := ih (decode d q).1
+    simp only [runDec] at this
+    rw [this, decode_par]
+
+/-- **C07 resynchronisation, sniffing not over**: under the hypotheses of `c07_flush_unsniffed` for
+the intact group `f`, the intact group `g` after it is returned exactly. -/
+theorem c07_resync_unsniffed (e : Enc) (f g : List Bytes) (d : Dec) (hc : ValidCfg e.cfg e.par)
+    (hf : ValidFrame e.par f) (hg : ValidFrame e.par g) (hpar : d.par = e.par) (hm : d.adtsMode = false)
+    (hz : d.size ≠ 0) (b1 : List Bytes) (rest : List (List Bytes)) (hparts : parts e.cfg e.par f = b1 :: rest)
+    (hwhole : b1.length ≠ 1 ∨ lenAggregated e.par b1 none < e.cfg.max)
+    (hna : b1.length ≠ 1 ∨ e.seq ≠ d.nextSeq) :
+    let e1 := (encode e f).1
+    ∃ d' outs, runDec (runDec d (pkts e f)).1 (pkts e1 g) = (d', outs) ∧ Clean d' ∧ OnlyOkMore outs ∧
+      (okFrames outs).flatten = g := by
+  intro e1
+  obtain ⟨d1, outs1, h1, hcl, _, _⟩ := c07_flush_unsniffed e f d hc hf hpar hm hz b1 rest hparts hwhole hna
+  have hp1 : (runDec d (pkts e f)).1.par = e.par := by rw [runDec_par, hpar]
+  obtain ⟨hc1, hc2⟩ := encode_cfg e f
+  rw [h1] at hp1 ⊢
+  obtain ⟨_, d', outs, h2, h3, _, h4, _, h5⟩ := c03_roundtrip_grouping e1 g d1
+    (by rw [hc1, hc2]; exact hc) (by rw [hc2]; exact hg) hcl (by rw [hc2]; exact hp1)
+  exact ⟨d', outs, h2, h3, h4, h5⟩
+
 /-! ## facts the model depends on (regenerated from /repo on every run) -/
 
 /-- the decoder checks every AU size read from an AU header against `MaxAccessUnitSize`
